@@ -72,9 +72,22 @@ Definition check_doc (T : string) : P (list Z) :=
   let j3 := Bool.eqb (doc_ok T doc) (negb known) in
   ret (code_if j1 1 ++ code_if j2 2 ++ code_if j3 3)%list.
 
+(* "CLOSE" document-tree k n (kind value)* scan_after_close err_is_closed :
+   Scanner.Close after k objects (osmxml/scanner.go Close/Scan/Err): model = the first k objects of
+   the scan; property: no object after Close, Err = ErrScannerClosed *)
+Definition scan_then_close (doc : xml) (k : nat) : list (string * value) := firstn k (fst (scan_el gen_schema doc)).
+
+Definition check_close : P (list Z) :=
+  doc <- pxml 64 ;; k <- pnat ;; got <- plist pobj ;; after <- pbool ;; closed <- pbool ;;
+  let j1 := objs_eqb (scan_then_close doc k) got in
+  let j2 := negb after && closed && Nat.eqb (List.length got) k in
+  ret (code_if j1 1 ++ code_if j2 2)%list.
+
 Definition check : P (list Z) :=
   T <- pstring ;;
-  if String.eqb T "BIG" then check_big else check_doc T.
+  if String.eqb T "BIG" then check_big
+  else if String.eqb T "CLOSE" then check_close
+  else check_doc T.
 
 Definition check_case (t : toks) : list Z :=
   match parse_all check t with
